@@ -483,8 +483,17 @@ func (c *compiler) compileQueryUpdate(l, r *Query, op Operator) error {
 			v := c.newVariable()
 			c.append(&code{op: opstore, v: v})
 			c.append(&code{op: opload, v: v})
+			// evaluate the right-hand side outside path tracking (ref: compileAssign)
+			c.append(&code{op: opexpbegin})
+			pc := len(c.codes)
 			if err := c.compileQuery(r); err != nil {
 				return err
+			}
+			if len(c.codes) == pc+1 && c.codes[pc].op == opconst {
+				c.codes[pc-1] = c.codes[pc]
+				c.codes = c.codes[:pc]
+			} else {
+				c.append(&code{op: opexpend})
 			}
 			c.append(&code{op: oppush, v: xs})
 			c.append(&code{op: opload, v: v})
